@@ -42,6 +42,7 @@ struct G {
 	int obsCall, obsRet, obsResult, obsKind;
 	// MODE 7
 	int waitCall[2], waitRet[2], waitKind[2], waitResult[2]; int dqnCtor, dqnDtorStart, dqnDtorEnd; int enqStarted; int scopeUsed;
+	int sdqnCtor, sdqnDtorStart, sscopeUsed;     // the scope-only thread's DisableQueueNotify
 };
 static G * g;
 static uint32_t payload_of(uint32_t seq) { return seq * 2654435761u + 17u; }
@@ -181,6 +182,8 @@ extern "C" void harness()
 	static const int opset[] = { Q_ENQUEUE, Q_PROCESS, Q_PROCESS_ONE, Q_PROCESS_IF, Q_CLEAR };          // what the heterogeneous queue offers
 #elif OPSET == 5
 	static const int opset[] = { Q_ENQUEUE, Q_PROCESS, Q_PROCESS_ONE };
+#elif OPSET == 6
+	static const int opset[] = { Q_ENQUEUE, Q_PROCESS, Q_PROCESS_ONE, Q_TAKE, Q_CLEAR };      // exactly the calls C11 quantifies over
 #elif OPSET == 1
 	static const int opset[] = { Q_ENQUEUE, Q_PROCESS, Q_PROCESS_ONE, Q_TAKE };
 #elif OPSET == 2
@@ -258,24 +261,35 @@ static void enqueuer(void * p)
 #else
 	if(script == 0) do_enqueue(3);
 	else if(script == 1 || script == 4) {
-		g->dqnCtor = g->clock++; g->scopeUsed = 1;
-		{ Q::DisableQueueNotify d(g->q); do_enqueue(3); if(script == 4) do_enqueue(3); vf_cover(COV_SCOPE_WITH_PENDING); g->dqnDtorStart = g->clock++; }
+		{ Q::DisableQueueNotify d(g->q); g->dqnCtor = g->clock++; g->scopeUsed = 1; do_enqueue(3); if(script == 4) do_enqueue(3); vf_cover(COV_SCOPE_WITH_PENDING); g->dqnDtorStart = g->clock++; }
 		g->dqnDtorEnd = g->clock++;
 	}
 	else if(script == 2) {
-		g->dqnCtor = g->clock++; g->scopeUsed = 1;
-		{ Q::DisableQueueNotify d1(g->q); { Q::DisableQueueNotify d2(g->q); do_enqueue(3); } g->dqnDtorStart = g->clock++; }
+		{ Q::DisableQueueNotify d1(g->q); g->dqnCtor = g->clock++; g->scopeUsed = 1; { Q::DisableQueueNotify d2(g->q); do_enqueue(3); } g->dqnDtorStart = g->clock++; }
 		g->dqnDtorEnd = g->clock++;
 	}
 	else { { Q::DisableQueueNotify d(g->q); } do_enqueue(3); }
 #endif
 }
+#ifdef PROC_THREAD
+// a thread that runs one selective processing call on the events pending at the start: it takes them out of the queue, dispatches some
+// and puts the others back -- during which the queue must not look empty to a waiter
+static void processor(void * p)
+{
+	int kind = *(int *)p;
+	g->opCall[4] = g->clock++;
+	if(kind == 0) g->q->processIf([](uint32_t seq, uint32_t) { bool acc = (seq & 1u) == 0; if(! acc && seq < MAXE) g->ev[seq].declined = 1; return acc; });
+	else g->q->processUntil([](uint32_t seq, uint32_t) { return (seq & 1u) != 0; });
+}
+#endif
 #ifndef HETER
 static void scope_only(void *)
 {
 	// a thread that only opens and closes a DisableQueueNotify scope (nothing pending from it)
-	Q::DisableQueueNotify d(g->q);
-	vf_yield(1);
+	{ Q::DisableQueueNotify d(g->q);
+	  g->sdqnCtor = g->clock++; g->sscopeUsed = 1;           // stamped once the object exists (its constructor has raised the counter)
+	  vf_yield(1);
+	  g->sdqnDtorStart = g->clock++; }
 }
 #endif
 extern "C" void harness()
@@ -292,6 +306,11 @@ extern "C" void harness()
 	script = 0;
 #else
 	script = (int)vf_choose(5);
+#endif
+#ifdef PROC_THREAD
+	static int pkind; pkind = (int)vf_choose(2); script = 0;
+	{ unsigned pre = 1 + vf_choose(2); for(unsigned i = 0; i < pre; i++) do_enqueue(0); }      // 1..2 events pending before any thread starts
+	vf_spawn(processor, &pkind);
 #endif
 	for(int w = 0; w < nw; w++) vf_spawn(waiter, &widx[w]);
 	vf_spawn(enqueuer, &script);
@@ -314,6 +333,9 @@ extern "C" void harness()
 	if(g->scopeUsed) for(int w = 0; w < nw; w++) {
 		if(g->waitRet[w] != 0 && g->waitKind[w] == 0) vf_assert(!(g->dqnCtor < g->waitCall[w] && g->waitRet[w] < g->dqnDtorStart), 353);
 		if(g->waitRet[w] != 0 && g->waitKind[w] == 1 && g->waitResult[w] == 1) vf_assert(!(g->dqnCtor < g->waitCall[w] && g->waitRet[w] < g->dqnDtorStart), 354);
+	}
+	if(g->sscopeUsed && g->sdqnDtorStart != 0) for(int w = 0; w < nw; w++) {     // the same for the scope held by the third thread (e.g. woken by a notification issued before the scope began)
+		if(g->waitRet[w] != 0 && (g->waitKind[w] == 0 || g->waitResult[w] == 1)) vf_assert(!(g->sdqnCtor < g->waitCall[w] && g->waitRet[w] < g->sdqnDtorStart), 355);
 	}
 	if(! dead) {
 		while(g->q->process()) {}
